@@ -79,8 +79,11 @@ class Env:
         self.label = label
 
     def snapshot(self):
+        """the environment a function value closes over: the variables (cells, shared by reference) that exist at the moment
+        the function is created - a name declared in the same scope LATER is not visible to it (the compiler resolves a name
+        to the nearest declaration that precedes the use)"""
         e = Env(self.outer, self.label)
-        e.scopes = list(self.scopes)
+        e.scopes = [dict(sc) for sc in self.scopes]
         return e
 
     def find_local(self, name):
@@ -244,7 +247,9 @@ class Interp:
             self.classes[s[1]] = s
             snap = env.snapshot()
             self.class_env[s[1]] = snap
-            env.scopes[-1][s[1]] = Cell(("class", s[1], snap))
+            cell = Cell(("class", s[1], snap))
+            env.scopes[-1][s[1]] = cell
+            snap.scopes[-1][s[1]] = cell          # the class body sees its own name
         elif k == "rawstmt":
             pass
         else:
